@@ -256,13 +256,19 @@ GROUPS = {
             for name, part in (("gSSPre", "pre"), ("gSSBody", "body"), ("gSSPost", "post"), ("gSSInit", "whole"))
         },
         "obligations": [
-            ("ssinit_pre", ["gSSPre"], "PreOK gSSPre {gSSPre.__dc0}", "intro st\n  unfold gSSPre\n  ssinit_eval"),
-            ("ssinit_step", ["gSSBody"], "StepOK gSSBody {gSSBody.__dc0} {gSSBody.$loopvar}",
-             "intro d n st hd hn\n  unfold gSSBody\n  ssinit_eval"),
-            ("ssinit_post", ["gSSPost"], "PostOK gSSPost {gSSPost.__dc0}", "intro v st hv\n  unfold gSSPost\n  ssinit_eval"),
+            ("ssinit_parts", ["gSSPre", "gSSBody", "gSSPost"], "PartsOK gSSPre gSSBody gSSPost {gSSBody.__dc0} {gSSBody.$loopvar}",
+             "have hstep : StepOK gSSBody {gSSBody.__dc0} {gSSBody.$loopvar} := by\n"
+             "    intro d n st hd hn\n    unfold gSSBody\n    ssinit_eval\n"
+             "  first\n"
+             "  | (refine ⟨false, ?_, hstep, ?_⟩\n"
+             "     · intro st; unfold gSSPre; ssinit_eval\n"
+             "     · intro v st hv hb; unfold gSSPost; ssinit_eval)\n"
+             "  | (refine ⟨true, ?_, hstep, ?_⟩\n"
+             "     · intro st; unfold gSSPre; ssinit_eval\n"
+             "     · intro v st hv hb; have hb' := hb rfl; unfold gSSPost; ssinit_eval)"),
             ("ssinit_builds", ["gSSPre", "gSSBody", "gSSPost", "gSSInit"], "InitBuilds gSSInit",
-             "exact init_of_parts (pre := gSSPre) (body := gSSBody) (post := gSSPost) rfl ssinit_pre\n"
-             "    (by intro st; ssinit_eval) ssinit_step ssinit_post (by decide)"),
+             "exact init_of_parts (pre := gSSPre) (body := gSSBody) (post := gSSPost) rfl ssinit_parts\n"
+             "    (by intro st; ssinit_eval) (by decide)"),
             # the step the scope-state end-to-end chain assumed (`mk`), now of the regenerated constructor
             ("ssinit_closes_chain", ["gSSPre", "gSSBody", "gSSPost", "gSSInit"], "ClosesChain gSSInit",
              "exact closesChain_of_builds ssinit_builds"),
